@@ -1394,7 +1394,11 @@ XPathProcessorImpl::UnaryExpr()
 
     if(tokenIs(XalanUnicode::charHyphenMinus) == true)
     {
-        nextToken();
+        // Like the binary operators, the unary minus needs an operand.
+        if (nextToken() == false)
+        {
+            error(XalanMessages::ExpectedToken);
+        }
 
         m_expression->insertOpCode(XPathExpression::eOP_NEG,
                                    opPos);
@@ -1450,7 +1454,11 @@ XPathProcessorImpl::UnionExpr()
                                            opPos);
             }
 
-            nextToken();
+            // Like the other binary operators, '|' needs a right operand.
+            if (nextToken() == false)
+            {
+                error(XalanMessages::ExpectedToken);
+            }
         }
         else
         {
